@@ -192,6 +192,9 @@ func (p *pathCtx) inReplay() bool { return p.pos < len(p.prefix) }
 // sync makes the solver's assertion stack equal to the path condition.
 func (p *pathCtx) sync() *smt.Solver {
 	s := p.i.solver
+	if s.Restarted {
+		p.started = false // the process was replaced: re-assert the whole path condition
+	}
 	if !p.started {
 		s.Reset()
 		p.started = true
